@@ -194,6 +194,28 @@ func c03Rules(p *core.Prog, r *core.Run) {
 		r.Check("C03.S3", "process:reparse", false, p.Pos(fn.Pos()), "expected exactly one re-parse of the extensions, found %d", len(re))
 	}
 
+	// the re-parse starts from a clean slate: every derived field is reset
+	// before the extension loop, so the two parses of an accepted hello do not add up
+	for _, name := range []string{"ServerName", "ALPNProtos", "hasECHOuterExtensions", "tls13", "echExt"} {
+		sts := fieldStores(p, []*ssa.Function{m.parseExt}, m.fCH[name])
+		var reset *ssa.Store
+		for _, st := range sts {
+			v := p.X(st.Val)
+			if v.Op == "const" && (v.Name == "nil" || v.Name == `""` || v.Name == "false" || v.Name == "zero") && len(p.Facts(st.Block())) == 0 {
+				reset = st
+			}
+		}
+		ok := reset != nil
+		if ok {
+			for _, st := range sts {
+				if st != reset && !core.Before(reset, st) {
+					ok = false
+				}
+			}
+		}
+		r.Check("C03.S3", "parseExtensions:reset-"+name, ok, p.Pos(m.parseExt.Pos()), "parseExtensions clears %s before it walks the extensions (an accepted inner hello is parsed twice; without the reset values of the first parse leak into the second)", name)
+	}
+
 	// --- S5: grammar agreement (shared)
 	clientHelloGrammar(p, r, "C03.S5")
 }
